@@ -34,9 +34,9 @@ def step_increment(sm, pre, post, comps_zero=True):
     list of problems (compensation not real-invariant 0)."""
     nf = sm.nf
     probs = []
-    if any(not nf.is_zero(nf.of_term(x)) for x in sm.comps(post)):
-        probs.append('compensation is not real-invariant 0 after the update')
     post0 = T.subst(post, {x: ZERO for x in sm.comps(pre)})
+    if any(not nf.is_zero(nf.of_term(x)) for x in sm.comps(post0)):
+        probs.append('compensation is not real-invariant 0 after the update')
     a0, a1 = sm.alpha(pre), sm.alpha(post0)
     d = tuple(nf.sub(nf.of_term(y), nf.of_term(x)) for x, y in zip(a0, a1))
     return d, probs
